@@ -80,6 +80,52 @@ def walk(cache):
     return out
 
 
+def graph_ints(cache, limit=100000):
+    """The FULL pointer graph reachable from freq_link_head as a flat list of ints,
+    objects renamed canonically in walk order (-1 = None, -2 = an object outside the
+    walk); mirror of LfuHeapShow.graph_ints."""
+    fobjs = []
+    fn = cache.freq_link_head
+    while fn is not None and len(fobjs) < limit:
+        fobjs.append(fn)
+        fn = fn.nxt
+    per_f = []
+    n = 0
+    for f in fobjs:
+        cs = []
+        cn = f.cache_head
+        while cn is not None and n < limit:
+            cs.append(cn)
+            n += 1
+            cn = cn.nxt
+        per_f.append(cs)
+    fidx, cidx = {}, {}
+    for i, f in enumerate(fobjs):
+        fidx.setdefault(id(f), i)
+    i = 0
+    for cs in per_f:
+        for cn in cs:
+            cidx.setdefault(id(cn), i)
+            i += 1
+
+    def ref(idx, o):
+        return -1 if o is None else idx.get(id(o), -2)
+    out = [ref(fidx, cache.freq_link_head), len(fobjs), len(cache.cache)]
+    for f, cs in zip(fobjs, per_f):
+        out += [f.freq, ref(fidx, f.pre), ref(fidx, f.nxt), ref(cidx, f.cache_head), ref(cidx, f.cache_tail), len(cs)]
+        for cn in cs:
+            out += [cn.key, cn.content, ref(fidx, cn.freq_node), ref(cidx, cn.pre), ref(cidx, cn.nxt),
+                    ref(cidx, cache.cache.get(cn.key))]
+    return out
+
+
+def ghash(h, out, ints):
+    h = mix(h, 1) if out is None else mix(h, out + 1 + 2)
+    for z in ints:
+        h = mix(h, z)
+    return h
+
+
 def obs(h, op, out, structure):
     kind, k, v = op
     if kind == "get":
@@ -140,7 +186,8 @@ def ref_trace(cap, ops):
 
 def run_impl(cap, ops, want_hash=True):
     """Run one sequence on the real LFUCache next to the reference.
-    Returns (final checksum, outs, structure, error-or-None, flags)."""
+    Returns (final checksum, outs, structure, error-or-None, flags); run_impl.gh holds
+    the chained per-step hashes of (output, full pointer graph) of the last call."""
     from deepdiff.lfucache import LFUCache
     from deepdiff.helper import not_found
     c = LFUCache(cap)
@@ -150,6 +197,9 @@ def run_impl(cap, ops, want_hash=True):
     err = None
     evicted = hit = False
     st = []
+    g = 0
+    ghs = run_impl.gh = []
+    run_impl.graph = []
     for i, op in enumerate(ops):
         kind, k, v = op
         try:
@@ -169,6 +219,9 @@ def run_impl(cap, ops, want_hash=True):
                 out = None
                 ref.set(k, v)
             st = walk(c)
+            run_impl.graph = graph_ints(c)
+            g = ghash(g, out, run_impl.graph)
+            ghs.append(g)
         except Exception as e:  # the cache must never raise or become inconsistent
             return h, outs, st, "step %d: %s: %s" % (i, type(e).__name__, e), (evicted, hit)
         if err is None:
@@ -196,6 +249,7 @@ def _group_task(args):
     nkeys, maxlen, cap, first2 = args
     sys.path.insert(0, core.REPO)
     total = 0
+    gtotal = 0
     n = 0
     nontriv = 0
     bad = []
@@ -206,12 +260,13 @@ def _group_task(args):
             ops = ops_of(seq)
             h, _outs, _st, err, (ev, hit) = run_impl(cap, ops)
             total = (total + h) & M63
+            gtotal = (gtotal + (run_impl.gh[-1] if len(run_impl.gh) == len(ops) else 0)) & M63
             n += 1
             if ev or hit:
                 nontriv += 1
             if err and len(bad) < 3:
                 bad.append({"capacity": cap, "ops": ops, "error": err})
-    return (cap, first2, total, n, nontriv, bad)
+    return (cap, first2, total, n, nontriv, bad, gtotal)
 
 
 def exhaustive(ctx, nkeys, maxlen):
@@ -226,10 +281,12 @@ def exhaustive(ctx, nkeys, maxlen):
     with mp.get_context("fork").Pool(core.NCPU) as pool:
         res = pool.map(_group_task, tasks, chunksize=1)
     sums = {}
+    gsums = {}
     n = nontriv = 0
-    for cap, first2, total, cnt, nt, bad in res:
+    for cap, first2, total, cnt, nt, bad, gtotal in res:
         key = (cap, first2[0])
         sums[key] = (sums.get(key, 0) + total) & M63
+        gsums[key] = (gsums.get(key, 0) + gtotal) & M63
         n += cnt
         nontriv += nt
         for b in bad:
@@ -241,23 +298,30 @@ def exhaustive(ctx, nkeys, maxlen):
     # model side: one coqc per capacity
     import concurrent.futures as cf
 
-    def model(cap):
-        return cap, ctx.coq_eval("lfu_groups_%d" % cap, "From DD Require Import Lfu.LfuModel Lfu.LfuShow.",
-                                 '"BEGIN" ++ nl ++ show_Hs (all_groups %d %d %d) ++ "END"' % (nkeys, maxlen - 1, cap))
-    with cf.ThreadPoolExecutor(3) as ex:
-        mres = list(ex.map(model, caps))
+    def model(arg):
+        cap, heap = arg
+        if heap:     # pointer-level model: full pointer graph after every step
+            return cap, heap, ctx.coq_eval("lfu_hgroups_%d" % cap, "From DD Require Import Lfu.LfuModel Lfu.LfuShow Lfu.LfuHeapModel Lfu.LfuHeapShow.",
+                                           '"BEGIN" ++ nl ++ show_Hs (all_hgroups %d %d %d) ++ "END"' % (nkeys, maxlen - 1, cap))
+        return cap, heap, ctx.coq_eval("lfu_groups_%d" % cap, "From DD Require Import Lfu.LfuModel Lfu.LfuShow.",
+                                       '"BEGIN" ++ nl ++ show_Hs (all_groups %d %d %d) ++ "END"' % (nkeys, maxlen - 1, cap))
+    with cf.ThreadPoolExecutor(6) as ex:
+        mres = list(ex.map(model, [(c_, hp) for c_ in caps for hp in (False, True)]))
     groups = 0
-    for cap, txt in mres:
+    for cap, heap, txt in mres:
         if txt is None:
             continue
         vals = [int(x) for x in txt.split()]
+        ref_sums = gsums if heap else sums
         for a in range(A):
             groups += 1
-            if vals[a] != sums[(cap, a)]:
+            if vals[a] != ref_sums[(cap, a)]:
                 ctx.corr_mismatch += 1
-                ctx.break_("correspondence", {"name": "lfu_exhaustive", "capacity": cap,
-                                              "first_op": ops_of((a,))[0], "model_checksum": vals[a], "impl_checksum": sums[(cap, a)],
-                                              "meaning": "some sequence starting with this op yields a different get output or linked structure"})
+                ctx.break_("correspondence", {"name": "lfu_exhaustive_heap" if heap else "lfu_exhaustive", "capacity": cap,
+                                              "first_op": ops_of((a,))[0], "model_checksum": vals[a], "impl_checksum": ref_sums[(cap, a)],
+                                              "meaning": ("some sequence starting with this op yields a different get output or POINTER GRAPH "
+                                                          "(pre/nxt/freq_node/cache_head/cache_tail/dict, canonical ids)") if heap else
+                                                         "some sequence starting with this op yields a different get output or linked structure"})
     ctx.corr_cases += n
     ctx.count("corr_cases:exhaustive_sequences", n)
     ctx.count("corr_groups", groups)
@@ -324,6 +388,26 @@ def random_traces(ctx, n, maxlen):
             ctx.sample({"capacity": cap, "ops": ops[:30], "final_structure": st})
     ctx.coq_cases("lfu_traces", "From DD Require Import Lfu.LfuModel Lfu.LfuShow.\nLocal Open Scope Z_scope.", cases, shard=100, label="random_traces")
     ctx.coq_cases("lfu_spec_traces", "From DD Require Import Lfu.LfuModel Lfu.LfuShow.\nLocal Open Scope Z_scope.", spec_cases, shard=100, label="spec_vs_reference")
+
+
+def heap_traces(ctx, n, maxlen):
+    """Pointer-level model (LfuHeapModel.v) against the real objects: after every step the
+    FULL pointer graph (canonical ids) is folded into a chained hash; outputs and the final
+    graph are compared in full."""
+    cases = []
+    for i in range(n):
+        cap, ops = gen_random(ctx.rng, maxlen)
+        h, outs, st, err, (ev, hit) = run_impl(cap, ops)
+        ctx.seen(("heap", cap, tuple(ops)), nontrivial=ev or hit)
+        ctx.count("heap:traces")
+        if err:
+            ctx.fail({"capacity": cap, "ops": ops, "error": err}, "LFUCache deviates from a bounded LFU map: " + err)
+        if len(run_impl.gh) == len(ops):
+            cases.append(("heap_trace_sx %d %s" % (cap, coq_ops(ops)),
+                          [list(run_impl.gh), [("Some", o) if o is not None else None for o in outs], list(run_impl.graph)],
+                          {"capacity": cap, "ops": ops, "what": "pointer graph of the real objects vs heap model"}))
+    ctx.coq_cases("lfu_heap_traces", "From DD Require Import Lfu.LfuModel Lfu.LfuShow Lfu.LfuHeapModel Lfu.LfuHeapShow.\nLocal Open Scope Z_scope.",
+                  cases, shard=20, label="heap_pointer_graph_traces")
 
 
 # ---- set(key, report_type, value) -------------------------------------------
@@ -582,6 +666,7 @@ def threaded(ctx, rounds, nthreads=8, nops=4000):
 def run(ctx):
     exhaustive(ctx, 3, 7 if ctx.thorough else 6)
     random_traces(ctx, 1500 if ctx.thorough else 300, 200)
+    heap_traces(ctx, 800 if ctx.thorough else 160, 200 if ctx.thorough else 80)
     rt_traces(ctx, 1000 if ctx.thorough else 200, 60)
     lock_monitor(ctx, 300 if ctx.thorough else 60)
     threaded(ctx, 12 if ctx.thorough else 3)
